@@ -21,7 +21,8 @@ Source order modelled (local paths; the fsspec branch is outside):
                    Path(basename, "fc")                -- pathFc
                    check_overwrite                     -- refuse (against the CURRENT files)
                    kind cfg    : dump_using_format(raw sub-config) | __orig__ ; open ; write
-                   kind content: open ; val.get_content() ; write          (save_path_content)
+                   kind content: val.get_content() ; open ; write          (save_path_content; fix 1bcbda4:
+                                 the source is read BEFORE its destination is opened)
                 dump = self.dump(cfg, skip_validation=True)   -- i.dump
                 open(path,"w"); write(dump)                   -- i.wr
 -/
@@ -82,7 +83,9 @@ def writeFile (fs : FS) (p s : String) (w : Wr) : Result :=
     if !w.writeOk then (.error .io, fs1)
     else (.ok (), fs1.put p s)
 
-/-- `with open(p, "w") as f: f.write(<expr>)`: the text is computed AFTER the file was opened -/
+/-- `with open(p, "w") as f: f.write(<expr>)`: the text is computed AFTER the file was opened.
+    No step of the current `save` has this shape any more (fixes 8f1ace8, 0eab76f, 1bcbda4); kept for the
+    regression examples of the pre-fix orders in Props/C18. -/
 def openThenWrite (fs : FS) (p : String) (d : Outcome) (w : Wr) : Result :=
   if !w.openOk then (.error .os, fs)
   else
@@ -104,14 +107,14 @@ structure Sub where
   kind : SubKind := .cfg
   /-- kind cfg: `dump_using_format` of the raw sub-config, or its `__orig__` text: fault point -/
   text : Outcome := .text ""
-  /-- kind content: the file whose content is copied; it is read AFTER the destination was opened -/
+  /-- kind content: the file whose content is copied; it is read BEFORE the destination is opened -/
   src : String := ""
   /-- kind content: fault point of `val.get_content()` -/
   readOk : Bool := true
   wr   : Wr := {}
 deriving DecidableEq, Repr
 
-/-- `val.get_content()` evaluated on the files as they are once the destination has been opened -/
+/-- `val.get_content()` evaluated on the files `fs1` -/
 def readSrc (fs1 : FS) (s : Sub) : Outcome :=
   if !s.readOk then .fail .os
   else match fs1.get s.src with
@@ -122,7 +125,7 @@ def readSrc (fs1 : FS) (s : Sub) : Outcome :=
 def Sub.written (s : Sub) (fs : FS) : Outcome :=
   match s.kind with
   | .cfg => s.text
-  | .content => readSrc (fs.put s.path "") s
+  | .content => readSrc fs s
 
 def subStep (env : Env) (ow : Bool) (fs : FS) (s : Sub) : Result :=
   if !pathFc env s.path then (.error .path, fs)
@@ -132,7 +135,14 @@ def subStep (env : Env) (ow : Bool) (fs : FS) (s : Sub) : Result :=
       match s.text with
       | .fail e => (.error e, fs)
       | .text t => writeFile fs s.path t s.wr
-    | .content => openThenWrite fs s.path (readSrc (fs.put s.path "") s) s.wr
+    | .content =>
+      match readSrc fs s with
+      | .fail e => (.error e, fs)
+      | .text t => writeFile fs s.path t s.wr
+
+/-- the sub-file step for a copied file as it was BEFORE fix 1bcbda4: destination opened, then source read -/
+def subStepContentOld (fs : FS) (s : Sub) : Result :=
+  openThenWrite fs s.path (readSrc (fs.put s.path "") s) s.wr
 
 /-- the loop of `save_paths` -/
 def saveSubs (env : Env) (ow : Bool) : FS → List Sub → Result
@@ -145,8 +155,8 @@ def saveSubs (env : Env) (ow : Bool) : FS → List Sub → Result
 
 structure Input where
   path : String
-  overwrite : Bool := false       -- default of the keyword argument (Gen.SaveOrder.overwriteDefault)
-  multifile : Bool := true        -- default of the keyword argument (Gen.SaveOrder.multifileDefault)
+  overwrite : Bool := false       -- default of the keyword argument (= Gen.SaveOrder.overwriteDefault, theorem tie_defaults)
+  multifile : Bool := true        -- default of the keyword argument (= Gen.SaveOrder.multifileDefault, theorem tie_defaults)
   formatOk : Bool := true
   /-- single-file: `self.dump(cfg)` (validation + serialisation);
       multi-file: the final `self.dump(cfg, skip_validation=True)` of the config with sub-file references -/
@@ -180,6 +190,6 @@ def modelSingleSteps : List String := ["format", "path_fc", "check_overwrite", "
 def modelMultiSteps : List String :=
   ["format", "path_fc", "check_overwrite", "clone", "strip_links", "validate", "save_paths", "dump", "open", "write"]
 def modelSubCfgSteps : List String := ["path_fc", "check_overwrite", "serialise", "open", "write"]
-def modelSubContentSteps : List String := ["path_fc", "check_overwrite", "open", "get_content", "write"]
+def modelSubContentSteps : List String := ["path_fc", "check_overwrite", "get_content", "open", "write"]
 
 end Jap.Save
